@@ -197,8 +197,14 @@ def lc_file(chk, g):
     with scratch() as d:
         path = os.path.join(d, 'ev.fits')
         evfile.write_event_file(path, times, gtis=gtis, tstart=0., tstop=2000., deadtime=0.001)
-        for tbins in ([200, 5, 3] if chk.tier == 'quick' else [200, 50, 20, 8, 5, 3, 2, 1]):
-            o = xpbin(**PARSER.parse_args([path, '--overwrite', 'True', '--algorithm', 'LC', '--tbins', str(tbins)]).__dict__)[0]
+        # the default range (TSTART..TSTOP) and explicit ranges whose ends fall strictly inside a GTI, in a gap, or on a GTI bound
+        ranges = [(None, None), (150., 1850.), (None, 700.), (400., None), (500., 1400.), (1100., 1300.)]
+        if chk.tier != 'quick':
+            ranges += [tuple(sorted(float(x) for x in g.uniform(0., 2000., 2))) for _ in range(10)]
+        confs = [(tb, r) for tb in ([200, 5, 3] if chk.tier == 'quick' else [200, 50, 20, 8, 5, 3, 2, 1]) for r in (ranges if tb <= 5 else ranges[:1])]
+        for tbins, (tmin, tmax) in confs:
+            extra = ([] if tmin is None else ['--tmin', repr(tmin)]) + ([] if tmax is None else ['--tmax', repr(tmax)])
+            o = xpbin(**PARSER.parse_args([path, '--overwrite', 'True', '--algorithm', 'LC', '--tbins', str(tbins)] + extra).__dict__)[0]
             with fits.open(o) as h:
                 tab = h['RATE'].data
                 deadc = h[0].header['DEADC']
@@ -207,11 +213,11 @@ def lc_file(chk, g):
             exp = numpy.array([sum(max(0., min(b, y) - max(a, x)) for x, y in gtis) for a, b in zip(lo, hi)]) * deadc
             cexp = numpy.array([((times >= a) & (times < b)).sum() for a, b in zip(lo, hi)], dtype=float)
             cexp[-1] += (times == hi[-1]).sum()
-            chk.case(dict(op='xpbin-LC', gtis=gtis, tbins=tbins), nontrivial=tbins < 20)
+            chk.case(dict(op='xpbin-LC', gtis=gtis, tbins=tbins, tmin=tmin, tmax=tmax), nontrivial=tbins < 20)
             if numpy.abs(expo - exp).max() > 1e-6 * max(1., exp.max()):
                 j = int(numpy.argmax(numpy.abs(expo - exp)))
-                chk.fail('impl', 'LC (tbins=%d) EXPOSURE[%d]=%.6f, overlap × DEADC = %.6f for bin [%.3f, %.3f]' % (tbins, j, expo[j], exp[j], lo[j], hi[j]),
-                         dict(oracle='lc_file', args=dict(tbins=tbins, gtis=gtis), observed=float(expo[j]), expected=float(exp[j])))
+                chk.fail('impl', 'LC (tbins=%d, tmin=%s, tmax=%s) EXPOSURE[%d]=%.6f, overlap × DEADC = %.6f for bin [%.3f, %.3f]' % (tbins, tmin, tmax, j, expo[j], exp[j], lo[j], hi[j]),
+                         dict(oracle='lc_file', args=dict(tbins=tbins, gtis=gtis, tmin=tmin, tmax=tmax), observed=float(expo[j]), expected=float(exp[j])))
             if not (counts == cexp).all():
                 chk.fail('impl', 'LC (tbins=%d) COUNTS differ from the events in each bin' % tbins, dict(oracle='lc_file', args=dict(tbins=tbins, gtis=gtis)))
 
